@@ -417,9 +417,10 @@ def forward_property(case, net, x, y):
 def rand_act(rng, name=None):
     name = name or rng.choice(ACTS)
     if name.startswith('swish'):
-        return (name, [round(rng.uniform(-3, 3), 3)])
+        return (name, [rng.choice([round(rng.uniform(-3, 3), 3)] * 3 + [0.0, 1.0])])   # incl. the edge values beta = 0, 1
     if name.startswith('aptx'):
-        return (name, [round(rng.uniform(-2, 2), 3), round(rng.uniform(-3, 3), 3), round(rng.uniform(-2, 2), 3)])
+        e = lambda lo, hi: rng.choice([round(rng.uniform(lo, hi), 3)] * 3 + [0.0, 1.0])
+        return (name, [e(-2, 2), e(-3, 3), e(-2, 2)])
     return (name, [])
 
 
@@ -656,7 +657,7 @@ PARAM_TABLE = [('tanh', []), ('sin', []), ('swish', ['beta']), ('aptx', ['alpha'
 
 
 def param_cases(rng):
-    return [dict(kind=kind, trainable=tr, values={h: round(rng.uniform(-3, 3), 3) for h in hyper})
+    return [dict(kind=kind, trainable=tr, values={h: rng.choice([round(rng.uniform(-3, 3), 3)] * 3 + [0.0, 1.0]) for h in hyper})
             for kind, hyper in PARAM_TABLE for tr in (False, True)]
 
 
